@@ -330,6 +330,15 @@ var c20combos = []comboSpec{
 	{"vat-21-ext2", func() *tax.Combo {
 		return &tax.Combo{Category: "VAT", Percent: pct("21%"), Ext: tax.Extensions{"es-tbai-product": "services"}}
 	}},
+	{"vat-21-ext-superset", func() *tax.Combo {
+		return &tax.Combo{Category: "VAT", Percent: pct("21%"), Ext: tax.Extensions{"es-tbai-product": "goods", "es-verifactu-regime": "01"}}
+	}},
+	{"vat-21-ext-other-key", func() *tax.Combo {
+		return &tax.Combo{Category: "VAT", Percent: pct("21%"), Ext: tax.Extensions{"es-verifactu-regime": "01"}}
+	}},
+	{"vat-exempt-ext-superset", func() *tax.Combo {
+		return &tax.Combo{Category: "VAT", Ext: tax.Extensions{"es-tbai-exemption": "E1", "es-verifactu-regime": "01"}}
+	}},
 	{"vat-exempt-ext", func() *tax.Combo {
 		return &tax.Combo{Category: "VAT", Ext: tax.Extensions{"es-tbai-exemption": "E1"}}
 	}},
@@ -458,7 +467,7 @@ func shareCategory(a, b *cSum) bool {
 }
 
 func runC20(c *Ctx) {
-	c.R.Rule("summaries produced by the real tax.TotalCalculator from random rows over 19 combo kinds (ES categories VAT/IRPF/IGIC/IPSI, keyed/percent/exempt, surcharges, extensions, country overrides), both rounding rules; relations: merge vs component-wise oracle, commutativity, associativity, A+(-A)=0, -(-A)=A, operand immutability (JSON + deep fingerprint incl. unexported fields), recalculation fixpoint; payments with 1-8 debit/credit lines in 1-3 currencies. non-trivial = operands share a category or carry a surcharge/retained/exempt feature; distinct by operand JSON")
+	c.R.Rule("summaries produced by the real tax.TotalCalculator from random rows over 22 combo kinds (ES categories VAT/IRPF/IGIC/IPSI, keyed/percent/exempt, surcharges, extension maps that are equal, different, disjoint and strict subsets of one another, country overrides), both rounding rules; relations: merge vs component-wise oracle, commutativity, associativity, A+(-A)=0, -(-A)=A, operand immutability (JSON + deep fingerprint incl. unexported fields), recalculation fixpoint; payments with 1-8 debit/credit lines in 1-3 currencies. non-trivial = operands share a category or carry a surcharge/retained/exempt feature; distinct by operand JSON")
 	c.R.Assume("component-wise arithmetic in math/big (internal/dec); groups keyed by (category; country, percent, surcharge percent, extensions; exempt apart); row order ignored")
 	c.R.Assume("payments: debit/credit amounts generated at the precision of their own currency are in domain; amounts with more decimals are executed and reported separately (out_of_domain), as are conversions from a currency with fewer decimals than the payment currency if they disagree")
 
